@@ -33,6 +33,27 @@ pub enum CVal {
 }
 
 pub fn gs(s: &[u32]) -> String { fbh::gal::gstr(s) }
+/// a Gallina list; long lists are printed run-length encoded (`repeat x n ++ [...] ++ …`) because
+/// coqc's parser overflows its stack on list literals of tens of thousands of elements
+pub fn glist_rle(items: &[String]) -> String {
+	if items.len() < 4000 { return format!("[{}]", items.join("; ")); }
+	let mut parts: Vec<String> = vec![];
+	let mut lit: Vec<&str> = vec![];
+	let mut i = 0;
+	while i < items.len() {
+		let mut j = i;
+		while j < items.len() && items[j] == items[i] { j += 1; }
+		if j - i >= 16 {
+			if !lit.is_empty() { parts.push(format!("[{}]", lit.join("; "))); lit.clear(); }
+			parts.push(format!("repeat ({}) (N.to_nat {})", items[i], j - i));
+		} else {
+			for k in i..j { lit.push(&items[k]); }
+		}
+		i = j;
+	}
+	if !lit.is_empty() { parts.push(format!("[{}]", lit.join("; "))); }
+	format!("({})", parts.join(" ++ "))
+}
 pub fn g_cval(v: &CVal) -> String {
 	match v {
 		CVal::Int(z) => format!("(VInt ({z}))"), CVal::Long(z) => format!("(VLong ({z}))"),
